@@ -459,6 +459,34 @@ func TestReaderAndVerifier(t *testing.T) {
 			evid.Count("verifier-hard-error-on-bad-signature", 1)
 		}
 
+		// recorded nonces that differ from the challenge in LENGTH: an extension, a repetition, a
+		// truncation, a prefix in front, nothing at all - "differs" is not "differs in the first 8 octets"
+		tail := rapid.SliceOfN(rapid.Byte(), 1, 8).Draw(rt, "nonce-tail")
+		cut := rapid.IntRange(0, 7).Draw(rt, "nonce-cut")
+		for name, rec := range map[string][]byte{
+			"extended":  append(append([]byte{}, chal...), tail...),
+			"repeated":  append(append([]byte{}, chal...), chal...),
+			"truncated": append([]byte{}, chal[:cut]...),
+			"prefixed":  append(append([]byte{}, tail...), chal...),
+			"zero-extended": append(append([]byte{}, chal...), 0),
+		} {
+			docEx.Session.ActiveAuthResult.Evidence.Nonce = rec
+			b, err := docEx.ToCbor()
+			if err != nil {
+				evid.Count("nonce-length-variant-not-serialisable/"+name, 1)
+				continue
+			}
+			evid.Count("nonce-length-variant/"+name, 1)
+			if out, err := verify(chal, b); err == nil || out != nil {
+				r2 := map[string]any{"recordedNonce": hx(rec), "variant": name}
+				for k, x := range repro {
+					r2[k] = x
+				}
+				evid.Fail(rt, "verifier-nonce-length", r2, "offline verification with challenge %x did not hard-fail although the recorded nonce is %x (%s)", chal, rec, name)
+			}
+		}
+		docEx.Session.ActiveAuthResult.Evidence.Nonce = append([]byte{}, other...)
+
 		// One verifier object over a HISTORY of calls (the plain verifier and the mobile binding): the
 		// challenge in force is the one set last; every Verify hard-fails exactly when a challenge is in
 		// force and differs from the recorded nonce - whatever was verified or set before.
